@@ -114,6 +114,8 @@ for _p in ("C02", "C03", "C04", "C13"):
 PROPS["C02"]["streams"] = [S("crash", 250, 6000, vm=(10, 100), vm_maxlen=8000), S("segcrash", 300, 8000, vm=(6, 60), vm_maxlen=6000),
                            S("stalechain", 40, 1500, vm=(4, 40), vm_maxlen=6000)]
 PROPS["C03"]["streams"] = [S("crash", 250, 6000, vm=(10, 100), vm_maxlen=8000), S("segcrash", 250, 8000, vm=(6, 60), vm_maxlen=6000)]
+# C13 also runs the faults stream: left-over files and failed deletions are where "meta DB + live segments" is at stake
+PROPS["C13"]["streams"] = [S("crash", 250, 6000, vm=(10, 100), vm_maxlen=8000), S("faults", 150, 3000, vm=(5, 50), vm_maxlen=8000)]
 PROPS["C08"] = dict(PROPS["C05"])
 PROPS["C01"]["streams"] = [S("crash", 300, 8000, vm=(10, 100), vm_maxlen=8000), S("segcrash", 250, 8000, vm=(6, 60), vm_maxlen=6000)]
 PROPS["C08"]["streams"] = [S("stable", 120, 3000, vm=(5, 60), vm_maxlen=5000), S("seqapi", 100, 3000, vm=(3, 60), vm_maxlen=5000), S("crash", 100, 3000, vm=(4, 50), vm_maxlen=8000),
